@@ -10,17 +10,18 @@ Open Scope N_scope.
 Section C05.
   Variable hasher_ok : N -> bool.
   Variable hash : N -> bytes -> bytes.
-  Variable codecs : N -> option codec.
+  Variable encoders : N -> option codec.
+  Variable decoders : N -> option codec.
 
   Notation verify := (verify hash).
-  Notation load_any := (load_any hasher_ok hash codecs).
-  Notation store := (store hasher_ok hash codecs).
-  Notation compute := (compute hasher_ok hash codecs).
-  Notation step := (step hasher_ok hash codecs).
-  Notation run := (run hasher_ok hash codecs).
-  Notation store_plan := (store_plan hasher_ok hash codecs).
+  Notation load_any := (load_any hasher_ok hash decoders).
+  Notation store := (store hasher_ok hash encoders true).
+  Notation compute := (compute hasher_ok hash encoders).
+  Notation step := (step hasher_ok hash encoders decoders true).
+  Notation run := (run hasher_ok hash encoders decoders true).
+  Notation store_plan := (store_plan hasher_ok hash encoders).
   Notation blocks_ok := (blocks_ok hash).
-  Notation no_collision := (no_collision hasher_ok hash codecs).
+  Notation no_collision := (no_collision hasher_ok hash encoders).
 
   (* -------------------------------------------------------------- store = compute *)
 
@@ -31,7 +32,7 @@ Section C05.
     end.
   Proof.
     unfold LinkSpec.store_plan, LinkSys.compute.
-    destruct (codecs _) as [c|]; [|discriminate].
+    destruct (encoders _) as [c|]; [|discriminate].
     destruct (negb (hasher_ok _)); [discriminate|].
     destruct (c_enc c v) as [chunks|]; [|discriminate].
     destruct (build_link _ _); [reflexivity|discriminate].
@@ -44,11 +45,11 @@ Section C05.
     | None => (compute lp v, st)
     end.
   Proof.
-    unfold LinkSys.store, LinkSpec.store_plan, LinkSys.compute. cbn [honest_w w_open_err w_cap w_commit_err].
-    destruct (codecs _) as [c|]; [|reflexivity].
+    unfold LinkSys.store, LinkSpec.store_plan, LinkSys.compute. cbn [honest_w w_open_err w_cap w_sched w_commit_err].
+    destruct (encoders _) as [c|]; [|reflexivity].
     destruct (negb (hasher_ok _)); [reflexivity|].
     destruct (c_enc c v) as [chunks|]; [|reflexivity].
-    rewrite accept_unlimited. cbn [andb].
+    rewrite write_all_honest. cbn [andb orb].
     destruct (build_link _ _); reflexivity.
   Qed.
 
@@ -72,7 +73,7 @@ Section C05.
 
   (* for a codec whose encoder sorts map entries, the link does not depend on entry order *)
   Theorem link_fn_perm (same : dm -> dm -> Prop) lp c dom v1 v2 :
-    codecs (lp_codec lp) = Some c -> order_insensitive same c dom ->
+    encoders (lp_codec lp) = Some c -> order_insensitive same c dom ->
     dom v1 -> dom v2 -> same v1 v2 -> compute lp v1 = compute lp v2.
   Proof.
     intros C O D1 D2 P. unfold LinkSys.compute. rewrite C. now rewrite (O v1 v2 D1 D2 P).
@@ -89,18 +90,76 @@ Section C05.
     destruct (run sk tr st1 r) as [os' st2']. cbn [snd] in *. exact IH.
   Qed.
 
-  Lemma step_state sk tr st op :
-    snd (step sk tr st op) =
-    match op with
-    | OStore lp v => match store_plan lp v with
-                     | Some (l, b) => put sk st (skey sk l) b
-                     | None => st
-                     end
-    | _ => st
+  Lemma step_state_store sk tr st lp v :
+    snd (step sk tr st (OStore lp v)) =
+    match store_plan lp v with
+    | Some (l, b) => put sk st (skey sk l) b
+    | None => st
     end.
   Proof.
-    destruct op as [lp v|lp v|f l]; cbn [LinkSys.step]; try reflexivity.
-    rewrite store_honest. destruct (store_plan lp v) as [[l b]|]; reflexivity.
+    cbn [LinkSys.step]. rewrite store_honest. destruct (store_plan lp v) as [[l b]|]; reflexivity.
+  Qed.
+
+  (* a store through a misbehaving writer (Store has the write-error latch): either nothing is
+     committed, or it reports Ok with ComputeLink's link and commits exactly what an honest store
+     commits *)
+  Lemma storeW_cases sk w st lp v :
+    snd (store sk w st lp v) = st \/
+    exists l b, store_plan lp v = Some (l, b) /\
+                store sk w st lp v = ({| so_status := SOk; so_link := Some l |}, put sk st (skey sk l) b).
+  Proof.
+    destruct (store sk w st lp v) as [s st'] eqn:S. cbn [snd].
+    destruct (so_status s) eqn:St; [|left; eapply (store_atomic hasher_ok hash encoders); eauto; congruence
+                                    |left; eapply (store_atomic hasher_ok hash encoders); eauto; congruence].
+    destruct (encoders (lp_codec lp)) as [c|] eqn:C;
+      [|unfold LinkSys.store in S; rewrite C in S; inversion S; subst; discriminate].
+    destruct (c_enc c v) as [chunks|] eqn:E.
+    2:{ unfold LinkSys.store in S; rewrite C, E in S.
+        destruct (negb (hasher_ok _)); [inversion S; subst; discriminate|].
+        destruct (w_open_err w); inversion S; subst; discriminate. }
+    destruct (store_commits_whole hasher_ok hash encoders true sk w st lp v c chunks s st' C E eq_refl S (or_introl St))
+      as (Hs & Hc & Hput).
+    destruct (Hput St) as (l & Hl & ->). right.
+    pose proof (compute_plan lp v) as CP.
+    destruct (store_plan lp v) as [[l0 b0]|] eqn:P; [|congruence].
+    assert (b0 = concat chunks).
+    { unfold LinkSpec.store_plan in P. rewrite C, E in P.
+      destruct (negb (hasher_ok _)); [discriminate|]. destruct (build_link _ _); inversion P; auto. }
+    subst b0. rewrite CP in Hs. cbn in Hs. rewrite Hs in Hl. cbn in Hl. inversion Hl; subst l0.
+    exists l, (concat chunks). split; [reflexivity|]. rewrite Hs, St. reflexivity.
+  Qed.
+
+  (* whatever the writer does, a Store that reports Ok returns ComputeLink's result *)
+  Theorem storeW_ok_eq_compute sk w st lp v :
+    so_status (fst (store sk w st lp v)) = SOk -> fst (store sk w st lp v) = compute lp v.
+  Proof.
+    intros Sok. destruct (storeW_cases sk w st lp v) as [E|(l & b & P & E)].
+    - (* nothing committed although Ok: only possible when the put was a no-op; use the link *)
+      destruct (store sk w st lp v) as [s st'] eqn:S. cbn [fst snd] in *.
+      destruct (encoders (lp_codec lp)) as [c|] eqn:C;
+        [|unfold LinkSys.store in S; rewrite C in S; inversion S; subst; discriminate].
+      destruct (c_enc c v) as [chunks|] eqn:En.
+      2:{ unfold LinkSys.store in S; rewrite C, En in S.
+          destruct (negb (hasher_ok _)); [inversion S; subst; discriminate|].
+          destruct (w_open_err w); inversion S; subst; discriminate. }
+      destruct (store_commits_whole hasher_ok hash encoders true sk w st lp v c chunks s st' C En eq_refl S (or_introl Sok))
+        as (Hs & Hc & _).
+      rewrite Hs, Sok. destruct (compute lp v) as [cs cl]. cbn in *. now subst.
+    - rewrite E. cbn [fst]. pose proof (compute_plan lp v) as CP. rewrite P in CP. now rewrite CP.
+  Qed.
+
+  Lemma step_state_cases sk tr st op :
+    snd (step sk tr st op) = st \/
+    exists lp v l b,
+      (op = OStore lp v \/ exists w, op = OStoreW w lp v) /\ store_plan lp v = Some (l, b) /\
+      snd (step sk tr st op) = put sk st (skey sk l) b.
+  Proof.
+    destruct op as [lp v|w lp v|lp v|f l]; try (left; reflexivity).
+    - rewrite step_state_store. destruct (store_plan lp v) as [[l b]|] eqn:P; [|auto].
+      right. exists lp, v, l, b. auto.
+    - cbn [LinkSys.step]. destruct (storeW_cases sk w st lp v) as [E|(l & b & P & E)].
+      + left. destruct (store sk w st lp v). exact E.
+      + right. exists lp, v, l, b. split; [right; eauto|]. split; [exact P|]. now rewrite E.
   Qed.
 
   Lemma run_cons sk tr st op r :
@@ -113,7 +172,7 @@ Section C05.
   Lemma store_plan_verifies lp v l b : store_plan lp v = Some (l, b) -> verify l b = VOk.
   Proof.
     unfold LinkSpec.store_plan.
-    destruct (codecs _) as [c|]; [|discriminate].
+    destruct (encoders _) as [c|]; [|discriminate].
     destruct (negb (hasher_ok _)); [discriminate|].
     destruct (c_enc c v) as [chunks|]; [|discriminate].
     destruct (build_link _ _) as [l0|] eqn:B; [|discriminate].
@@ -124,9 +183,8 @@ Section C05.
   Theorem blocks_ok_run sk tr h st : blocks_ok sk st -> blocks_ok sk (snd (run sk tr st h)).
   Proof.
     revert st; induction h as [|op r IH]; intros st I; [exact I|].
-    rewrite run_cons. apply IH. rewrite step_state.
-    destruct op as [lp v|lp v|f l]; auto.
-    destruct (store_plan lp v) as [[l b]|] eqn:P; auto.
+    rewrite run_cons. apply IH.
+    destruct (step_state_cases sk tr st op) as [E|(lp & v & l & b & _ & P & E)]; rewrite E; auto.
     intros k x L. apply lookup_put_cases in L as [[-> ->]|L]; [|auto].
     exists l. split; [reflexivity|]. eapply store_plan_verifies; eauto.
   Qed.
@@ -142,8 +200,10 @@ Section C05.
   Proof.
     revert st; induction h as [|op r IH]; intros st NC L; [exact L|].
     cbv zeta. rewrite run_cons. inversion NC as [|? ? Hop Hr]; subst. apply IH; auto.
-    rewrite step_state. destruct op as [lp v|lp v|f l]; auto.
-    destruct (store_plan lp v) as [[l' b']|]; auto.
+    destruct (step_state_cases sk tr st op) as [E0|(lp & v & l' & b' & Hop' & P & E0)]; rewrite E0; auto.
+    assert (Hop2 : skey sk l' = k -> b' = b).
+    { destruct Hop' as [-> |[w ->]]; cbn in Hop; rewrite P in Hop; exact Hop. }
+    clear Hop. rename Hop2 into Hop.
     destruct (bytes_eqb k (skey sk l')) eqn:E.
     - apply bytes_eqb_eq in E. subst k. rewrite (Hop eq_refl) in *. rewrite lookup_put_same.
       destruct L as [-> | ->]; [auto|]. destruct (sk_overwrite sk); auto.
@@ -156,8 +216,11 @@ Section C05.
     intros NC L. destruct (run_keeps_or_none sk tr k b h st NC (or_intror L)) as [N|S]; auto.
     exfalso. revert st L N. induction h as [|op r IH]; intros st L N; [cbn in N; congruence|].
     rewrite run_cons in N. inversion NC as [|? ? Hop Hr]; subst.
-    apply (IH Hr (snd (step sk tr st op))); [|exact N]. rewrite step_state. destruct op as [lp v|lp v|f l]; auto.
-    destruct (store_plan lp v) as [[l' b']|]; auto.
+    apply (IH Hr (snd (step sk tr st op))); [|exact N].
+    destruct (step_state_cases sk tr st op) as [E0|(lp & v & l' & b' & Hop' & P & E0)]; rewrite E0; auto.
+    assert (Hop2 : skey sk l' = k -> b' = b).
+    { destruct Hop' as [-> |[w ->]]; cbn in Hop; rewrite P in Hop; exact Hop. }
+    clear Hop. rename Hop2 into Hop.
     destruct (bytes_eqb k (skey sk l')) eqn:E.
     - apply bytes_eqb_eq in E. subst k. rewrite (Hop eq_refl) in *. rewrite lookup_put_same, L.
       destruct (sk_overwrite sk); auto.
@@ -172,7 +235,7 @@ Section C05.
   Proof.
     intros P NC. apply Forall_app in NC as [NC1 NC2]. inversion NC2 as [|? ? _ NC3]; subst.
     rewrite run_app, run_cons. apply run_keeps; auto.
-    rewrite step_state, P, lookup_put_same.
+    rewrite step_state_store, P, lookup_put_same.
     destruct (run_keeps_or_none sk tr (skey sk l) b h1 [] NC1 (or_introl eq_refl)) as [-> | ->]; auto.
     destruct (sk_overwrite sk); auto.
   Qed.
@@ -181,14 +244,14 @@ Section C05.
   Lemma load_present sk tr st f l b cl v' e :
     lookup st (skey sk l) = Some b -> verify l b = VOk ->
     hasher_ok (lp_mhtype (link_proto l)) = true ->
-    codecs (lp_codec (link_proto l)) = Some cl -> c_dec cl b = Some (v', lenN b, e) ->
+    decoders (lp_codec (link_proto l)) = Some cl -> c_dec cl b = Some (v', lenN b, e) ->
     load_any f tr (honest_read sk st l) l = loaded f v' b.
   Proof.
     intros L V H C D. unfold honest_read. rewrite L.
     assert (R : load_raw hasher_ok hash (RStream [b] TEof) l =
                 {| lo_status := SOk; lo_node := None; lo_raw := Some b |}).
     { unfold LinkSys.load_raw. rewrite H. cbn [negb concat]. rewrite app_nil_r, V. reflexivity. }
-    assert (F : fill hasher_ok hash codecs tr (RStream [b] TEof) l =
+    assert (F : fill hasher_ok hash decoders tr (RStream [b] TEof) l =
                 {| lo_status := SOk; lo_node := Some v'; lo_raw := None |}).
     { unfold LinkSys.fill. rewrite C, H. cbn [negb concat]. rewrite app_nil_r.
       unfold stream_dec. rewrite D. destruct tr; [reflexivity|].
@@ -201,7 +264,7 @@ Section C05.
   Theorem store_load sk tr h1 h2 lp v l b f cl v' e :
     store_plan lp v = Some (l, b) ->
     no_collision sk (skey sk l) b (h1 ++ OStore lp v :: h2) ->
-    codecs (lp_codec (link_proto l)) = Some cl -> c_dec cl b = Some (v', lenN b, e) ->
+    decoders (lp_codec (link_proto l)) = Some cl -> c_dec cl b = Some (v', lenN b, e) ->
     let st := snd (run sk tr [] (h1 ++ OStore lp v :: h2)) in
     load_any f tr (honest_read sk st l) l = loaded f v' b /\ verify l b = VOk.
   Proof.
@@ -210,7 +273,7 @@ Section C05.
     - subst st. apply stored_block_present; auto.
     - (* the hasher was available to the store *)
       unfold LinkSpec.store_plan in P.
-      destruct (codecs (lp_codec lp)) as [c|]; [|discriminate].
+      destruct (encoders (lp_codec lp)) as [c|]; [|discriminate].
       destruct (hasher_ok (lp_mhtype lp)) eqn:H; [|discriminate]. cbn [negb] in P.
       destruct (c_enc c v); [|discriminate].
       destruct (build_link lp _) as [lb|] eqn:B; [|discriminate]. inversion P; subst.
@@ -221,13 +284,14 @@ Section C05.
      prototype the decoder chosen for the link is the codec the prototype named. *)
   Theorem store_load_roundtrip sk tr h1 h2 lp v l b f c dom canon :
     lp_version lp = 1 ->
-    codecs (lp_codec lp) = Some c -> roundtrips c dom canon -> dom v ->
+    encoders (lp_codec lp) = Some c -> decoders (lp_codec lp) = Some c ->
+    roundtrips c dom canon -> dom v ->
     store_plan lp v = Some (l, b) ->
     no_collision sk (skey sk l) b (h1 ++ OStore lp v :: h2) ->
     let st := snd (run sk tr [] (h1 ++ OStore lp v :: h2)) in
     load_any f tr (honest_read sk st l) l = loaded f (canon v) b /\ verify l b = VOk.
   Proof.
-    intros V1 C RT Dv P NC.
+    intros V1 C Cd RT Dv P NC.
     assert (Hb : exists chunks, c_enc c v = Some chunks /\ b = concat chunks /\
                                 lp_codec (link_proto l) = lp_codec lp).
     { unfold LinkSpec.store_plan in P. rewrite C in P.
@@ -271,7 +335,7 @@ Qed.
 Example collision_possible :
   let h := [OStore toy_lp (DBytes [5; 6]); OStore toy_lp (DBytes [5; 7]); OLoad FLoadRaw
             {| l_v0 := false; l_codec := 85; l_mhtype := 18; l_digest := [2; 5] |}] in
-  fst (run toy_ok toy_hash toy_registry cidmem_kind false [] h) =
+  fst (run toy_ok toy_hash toy_registry toy_registry true cidmem_kind false [] h) =
   [OutS {| so_status := SOk; so_link := Some {| l_v0 := false; l_codec := 85; l_mhtype := 18; l_digest := [2; 5] |} |};
    OutS {| so_status := SOk; so_link := Some {| l_v0 := false; l_codec := 85; l_mhtype := 18; l_digest := [2; 5] |} |};
    OutL {| lo_status := SOk; lo_node := None; lo_raw := Some [5; 7] |}].
